@@ -155,7 +155,10 @@ prop(
     "trusted: pyvc's Python semantics; assumed contracts of threading.Lock/Event, trio.sleep; composition through asyncio/trio and all scheduling assumed",
     trusted=["assumed: threading.Lock.acquire(blocking=False) atomically returns True iff free and then holds; release requires held",
              "NOT DECIDED: shutdown()/accept() return within bounded time whatever the payloads are doing (liveness across threads)",
-             "representative arity: the exclusive wrapper is verified for 2 positional + 1 keyword argument; it forwards *args/**kwargs untouched"],
+             "representative arity: the exclusive wrapper is verified for 2 positional + 1 keyword argument; it forwards *args/**kwargs untouched",
+             "accept is also verified AS DECORATED (the real @exclusive() run by the interpreter on it, wrappers of sibling methods created once per path, every guard held): RuntimeError and an empty frame on every existing object",
+             "assumed: concurrent.futures.Future.result(timeout=t) may raise TimeoutError while the coroutine has not finished (stop() must never give up waiting); Event.wait(timeout) may return False",
+             "hypothesis (MetaRunner/ServiceRunner.__init__): logging.getLogger and threading.Event() as in the library models"],
     design_ref="5/C12",
 )
 
@@ -233,6 +236,8 @@ prop(
     "every exit path of each closing function is proved to perform its part: all runners closed under shield before run re-raises/returns; every still-tracked asyncio task cancelled until none is left and removed only when done; trio's channel closed inside the trio thread and the nursery scope cancelled inside the nursery block; thread payloads are daemon threads that are never joined. " + CONC_NOTE + "; termination of the asyncio close loop (a payload that swallows cancellation spins it) and cross-thread ordering are NOT proved",
     "trusted: pyvc's Python semantics; assumed: a done asyncio task has run its finally blocks, a nursery block / trio.run exits only after all children (shielded cleanup included) finished, asyncio.run cancels and awaits leftover tasks",
     trusted=["assumed: gather(..., return_exceptions=True) returns only when all awaited tasks are done; shield protects the close from cancellation; a nursery block and trio.run exit only after every child finished",
+             "assumed (asyncio.tasks.Task.__step): a KeyboardInterrupt / SystemExit raised inside a task is carried out of the event loop and out of asyncio.run by itself; SIDE CONDITION proved on _manage_runners: neither is re-raised from the managing coroutine (that would abort asyncio.run's cleanup before the executor threads - the trio thread - are joined)",
+             "assumed (trio memory channel): the receive loop ends once EVERY handle of the send side is closed; SIDE CONDITION proved on TrioRunner.register_payload: every clone it makes is closed again before it returns",
              "NOT COVERED (large): termination of `while self._tasks`, cross-thread ordering between the trio thread and the loop thread, 'no further step after the call ended' for tasks created concurrently with closing"],
     design_ref="5/C02",
 )
